@@ -4,6 +4,8 @@
 package c11
 
 import (
+	"syscall"
+
 	"context"
 	"crypto/tls"
 	"fmt"
@@ -12,6 +14,7 @@ import (
 	"testing"
 	"testing/synctest"
 	"time"
+	"verif/memnet"
 
 	"github.com/wi1dcard/fingerproxy"
 	"github.com/wi1dcard/fingerproxy/pkg/proxyserver"
@@ -140,6 +143,134 @@ func TestCheck(t *testing.T) {
 	}
 	if shard == 1%of {
 		handoff(t, rep)
+	}
+	parallel(t, rep, shard, of)
+}
+
+// ---- (d) three connections in parallel, each aborted at its own point, interleaved ------------------
+
+func parallel(t *testing.T, rep *ev.Report, shard, of int) {
+	type pt struct {
+		proto string
+		k     int64
+		reset bool
+	}
+	points := []pt{{"h1", 100, false}, {"h1", 600, true}, {"h1", 740, false}, {"h2", 300, true}, {"h2", 700, false}, {"h2", 815, true}}
+	bound := 1
+	if ev.Thorough() {
+		bound = 2
+	}
+	job := 0
+	for a := 0; a < len(points); a++ {
+		for b := a; b < len(points); b++ {
+			for c3 := b; c3 < len(points); c3++ {
+				job++
+				if job%of != shard || (!ev.Thorough() && job%4 != 0) {
+					continue
+				}
+				trio := []pt{points[a], points[b], points[c3]}
+				run := func(c *mc.Chooser) (out mc.Outcome) {
+					res := bubble.Run(t, func() {
+						st := bubble.NewStack(baseOpts())
+						synctest.Wait()
+						base := bubble.SUT()
+						cls := make([]*bubble.Client, 3)
+						var actors []*bubble.Actor
+						for i, p := range trio {
+							i, p := i, p
+							h := faults.HelloH1
+							if p.proto == "h2" {
+								h = faults.HelloH2
+							}
+							h.Prep = func(cl, sv *memnet.Conn) {
+								if p.reset {
+									cl.CutAfter(p.k, func() { cl.Reset(syscall.ECONNRESET) })
+								} else {
+									cl.CutAfter(p.k, func() { cl.Close() })
+								}
+							}
+							steps := []bubble.Step{{Name: "connect", Do: func() { cls[i] = st.Connect(fmt.Sprintf("p%d", i), nil, h) }}}
+							if p.proto == "h1" {
+								steps = append(steps,
+									bubble.Step{Name: "request 1", Do: func() { cls[i].SendH1(bubble.Req{Path: "/a", Host: "localhost", Lines: [][2]string{{"X-A", "1"}}}) }},
+									bubble.Step{Name: "request 2", Do: func() {
+										cls[i].SendH1(bubble.Req{Method: "POST", Path: "/b", Host: "localhost", Body: []byte("0123456789abcdef")})
+									}})
+							} else {
+								steps = append(steps,
+									bubble.Step{Name: "preface", Do: func() { cls[i].StartH2(h2wire.Setting{ID: 3, Val: 100}); cls[i].Write(h2wire.WindowUpdate(0, 1000)) }},
+									bubble.Step{Name: "request 1", Do: func() { cls[i].SendH2(1, bubble.Req{Path: "/a", Host: "localhost"}) }},
+									bubble.Step{Name: "request 2", Do: func() {
+										cls[i].SendH2(3, bubble.Req{Method: "POST", Path: "/b", Host: "localhost", Body: []byte("0123456789abcdef")})
+									}})
+							}
+							steps = append(steps, bubble.Step{Name: "abort (if the cut-off was not reached)", Do: func() { cls[i].Abort(nil) }})
+							actors = append(actors, &bubble.Actor{Name: fmt.Sprintf("p%d", i), Steps: steps})
+						}
+						bubble.ScheduleStrict(c, nil, actors, nil)
+						synctest.Wait()
+						time.Sleep(40 * time.Second)
+						synctest.Wait()
+						open := 0
+						for _, cl := range cls {
+							if cl != nil && cl.Srv != nil && cl.Srv.NumCloses() == 0 {
+								open++
+							}
+						}
+						extra := diff(base, bubble.SUT())
+						out.Obs = fmt.Sprintf("open=%d leftover=%d", open, len(extra))
+						if open > 0 || len(extra) > 0 {
+							out.Violations = append(out.Violations, fmt.Sprintf("3 parallel connections aborted at %v: %d accepted connection(s) never closed, goroutines left %v (schedule %v)", trio, open, extra, c.Trace()))
+							out.Sigs = append(out.Sigs, "parallel-abort-leak")
+						}
+						st.Shutdown()
+					})
+					if res.Panic != nil {
+						if he, ok := res.Panic.(mc.HarnessError); ok {
+							panic(he)
+						}
+						out.Violations = append(out.Violations, fmt.Sprintf("panic %v %s", res.Panic, res.Stack))
+						out.Sigs = append(out.Sigs, "panic")
+					}
+					return out
+				}
+				e := &mc.Explorer{Bound: bound, Deadline: time.Now().Add(120 * time.Second)}
+				func() {
+					defer func() {
+						if r := recover(); r != nil {
+							if he, ok := r.(mc.HarnessError); ok {
+								rep.HarnessError("parallel: %v", he)
+								return
+							}
+							panic(r)
+						}
+					}()
+					e.Explore(run)
+				}()
+				rep.Add("parallel_schedules", int64(e.Schedules))
+				rep.Add("evaluations", int64(e.Schedules))
+				rep.Note("distinct_nontrivial", fmt.Sprintf("parallel/%v", trio))
+				if e.Capped {
+					rep.NotExhaustive("parallel exploration time budget")
+				}
+				for _, d := range e.Diverged {
+					rep.HarnessError("parallel: nondeterministic: %s", d)
+				}
+				for _, f := range e.Found {
+					okN := 0
+					for i := 0; i < 5; i++ {
+						if o, _ := mc.Replay(f.Choices, run); len(o.Violations) > 0 {
+							okN++
+						}
+					}
+					if okN != 5 {
+						rep.HarnessError("parallel violation did not reproduce 5/5: %s", f.What)
+						continue
+					}
+					rep.Violate(map[string]any{"kind": f.Sig}, map[string]any{"trio": fmt.Sprint(trio), "choices": f.Choices, "schedule": f.Trace}, "%s", f.What)
+				}
+			}
+		}
 	}
 }
 
